@@ -124,6 +124,7 @@ type Exec struct {
 	inYield   bool
 	loadInitial bool
 	loadObj   Term
+	mapWFDone map[string]bool
 	sconcatAx bool
 	lemmasUsed map[string]bool
 }
